@@ -44,6 +44,7 @@ class Deep:
         :param config: the config to use.
         """
         self.started = False
+        self._shutdown = False
         self.config = config
         self.grpc = GRPCService(self.config)
         self.task_handler = TaskHandler()
@@ -55,6 +56,10 @@ class Deep:
     def start(self):
         """Start Deep."""
         if self.started:
+            return
+        if self._shutdown:
+            # the task handler and the trigger handler of this instance are closed for good, it can never act again
+            deep.logging.warning("Deep cannot be started again after shutdown, create a new instance.")
             return
         self.config.plugins = load_plugins(self.config, self.config.PLUGINS)
         default_resource = Resource.create()
@@ -76,6 +81,7 @@ class Deep:
         """Shutdown deep."""
         if not self.started:
             return
+        self._shutdown = True
         steps = [self.trigger_handler.shutdown, self.task_handler.flush, self.poll.shutdown]
         steps += [plugin.shutdown for plugin in self.config.plugins]
         for step in steps:
